@@ -221,3 +221,5 @@ Proof.
   - intros x Hx. apply tia_in. left; exact Hx.
   - intros x Hx. apply tia_in in Hx. destruct Hx as [Hx|[]]. left; exact Hx.
 Qed.
+
+Print Assumptions aj_sound.
